@@ -408,6 +408,8 @@ def run(ctx):
     rotation_direction_rule(ctx)
     ctx.attempt(axis_guard_rule, ctx)
     ctx.attempt(notation_rotation_rule, ctx)
+    ctx.attempt(integer_parameter_rule, ctx)
+    ctx.attempt(heterogeneity_detection_rule, ctx)
     from ..shared import notify_last_rule as _notify_last_rule
 
     ctx.attempt(_notify_last_rule, ctx, "R11.8")
@@ -543,3 +545,110 @@ def axis_guard_rule(ctx):
             r.fail(init.qualname, "axis-guard", init.file, init.lineno, f"{cname}.__init__", bad)
         else:
             r.ok(f"{cname}: guard verdicts " + "; ".join(f"{k}: {sorted(set(x.values()))[0]}" for k, x in groups.items()))
+
+
+def integer_parameter_rule(ctx):
+    """R11.10: 'supplying the same material ... yields the same law': a heterogeneous parameter given as an INTEGER array
+    (moduli in Pa: 210_000_000_000) is held as floats -- the laws multiply moduli, and a product of two such int64
+    values exceeds 2^63 and wraps around silently (TransverselyIsotropic with integer El, Et, Gl: C off by 42 %).
+    _Parameter.__set__ is interpreted on an integer-kind array through every concrete descriptor class."""
+    repo = ctx.repo
+    base = repo.cls(f"{PARAMS}._Parameter")
+    fset = base.methods["__set__"]
+    r = ctx.rule("R11.10", "parameter descriptors hold an integer array as floats (int64 products of moduli in Pa overflow silently)", min_instances=3)
+    for ci in sorted(repo.subclasses(base), key=lambda c: c.qualname):
+        if ci.name in ("BoolParameter", "StringParameter", "ParameterInValues", "ScalarParameter", "PositiveScalarParameter"):
+            continue  # not array-valued
+        f = repo.lookup_method(ci, "__set__")
+        r.instance(fn=f"{ci.qualname}.__set__")
+        I = Interp(repo)
+        # the checkers (range tests on the values) are not the subject: accept
+        I.call_hook = lambda fn, args, kwargs: None if getattr(fn if isinstance(fn, FuncInfo) else getattr(fn, "finfo", None), "name", "").startswith(("_Check", "_checker")) else NotImplemented
+        inst = XObj(repo.cls(f"{LAWS}.Isotropic"), {})
+        inst.attrs["Need_Update"] = lambda *a, **k: None
+        inst.attrs["__dict__"] = {}
+        desc = XObj(ci, {base.mangle("__name"): "E", ci.mangle("__inf"): Q(0), ci.mangle("__sup"): Q(10**12), ci.mangle("__values"): []})
+        val = XArray((2,), [210_000_000_000, 100_000_000_000], "i")
+        try:
+            I.call_function(f, [inst, val], self_obj=desc)
+        except Uninterpretable as e:
+            raise
+        stored = inst.attrs["__dict__"].get("E")
+        if isinstance(stored, XArray) and stored.dtype == "i":
+            r.fail(f"{ci.qualname}.__set__", "integer-array", f.file, f.lineno, f"{ci.name}.__set__", "an integer array is stored with its integer type: the products of moduli in the constitutive laws are int64 products (2.1e11 * 1e11 > 2^63) that wrap around without a warning -- the same material given as integers and as floats yields different laws")
+        else:
+            r.ok(f"{ci.name}: integer arrays are held as floats")
+
+
+def heterogeneity_detection_rule(ctx):
+    """R11.11: 'for every elastic law ...', also when one parameter is a field: the test that selects the element type of
+    the law matrices (`dtype = object if <...> is an array else float`) must see EVERY parameter the matrices are built
+    from -- otherwise a law whose only heterogeneous parameter is outside the test is built with dtype=float from a
+    ragged literal (ValueError), or silently broadcast.  Dataflow: parameters read by the matrix literals of _Behavior
+    (through locals and self-properties) must be a subset of those read by the dtype test."""
+    from ..flow import CallGraph
+
+    repo = ctx.repo
+    cg = CallGraph(repo)
+    base = repo.cls(f"{LAWS}._Elastic")
+    pcls = repo.cls(f"{PARAMS}._Parameter")
+    r = ctx.rule("R11.11", "heterogeneity detection in _Behavior reads every parameter the law matrices read (sibling laws agree: a field given for any single parameter is detected)", min_instances=3)
+    for ci in sorted(repo.subclasses(base), key=lambda c: c.qualname):
+        f = ci.methods.get("_Behavior")
+        if f is None or f.cls is not ci:
+            continue
+        params = set()
+        for c in ci.mro:
+            for nm, expr in c.class_attrs.items():
+                if isinstance(expr, ast.Call):
+                    pc = repo.resolve_name(c.module, dotted(expr.func) or "")
+                    if pc is not None and pcls in getattr(pc, "mro", []) and pc.name not in ("BoolParameter", "StringParameter", "ParameterInValues", "ScalarParameter", "PositiveScalarParameter", "InstanceParameter"):
+                        params.add(nm)  # descriptors that accept a field
+        if not params:
+            continue
+        dt = [n for n in ast.walk(f.node) if isinstance(n, ast.Assign) and any(isinstance(t, ast.Name) and t.id == "dtype" for t in n.targets)]
+        if not dt:
+            continue
+        r.instance(fn=f.qualname)
+        # locals -> parameters they are computed from (transitively, through self properties)
+        defs = {}
+        for n in ast.walk(f.node):
+            if isinstance(n, ast.Assign):
+                for t in n.targets:
+                    for x in (t.elts if isinstance(t, (ast.Tuple, ast.List)) else [t]):
+                        if isinstance(x, ast.Name):
+                            defs.setdefault(x.id, []).append(n.value)
+
+        def reads(e, seen=None, depth=0):
+            seen = seen if seen is not None else set()
+            out = set()
+            for x in ast.walk(e):
+                if isinstance(x, ast.Attribute) and isinstance(x.value, ast.Name) and x.value.id == "self":
+                    if x.attr in params:
+                        out.add(x.attr)
+                    else:
+                        for g in cg.resolve_self_attr(ci, x.attr, include_overrides=False):
+                            if id(g) not in seen and depth < 4:
+                                seen.add(id(g))
+                                out |= reads(g.node, seen, depth + 1)
+                elif isinstance(x, ast.Name) and x.id in defs and x.id not in seen:
+                    seen.add(x.id)
+                    for v in defs[x.id]:
+                        out |= reads(v, seen, depth)
+                elif isinstance(x, ast.Call) and isinstance(x.func, ast.Attribute) and isinstance(x.func.value, ast.Name) and x.func.value.id == "self":
+                    for g in cg.resolve_self_attr(ci, x.func.attr, include_overrides=False):
+                        if id(g) not in seen and depth < 4:
+                            seen.add(id(g))
+                            out |= reads(g.node, seen, depth + 1)
+            return out
+
+        tested = reads(dt[0].value)
+        literals = [n for n in ast.walk(f.node) if isinstance(n, ast.Call) and (dotted(n.func) or "").endswith("np.array") and n.args and isinstance(n.args[0], (ast.List, ast.Tuple)) and any(k.arg == "dtype" for k in n.keywords)]
+        used = set()
+        for lit in literals:
+            used |= reads(lit.args[0])
+        missing = sorted(used - tested)
+        if missing:
+            r.fail(f.qualname, "dtype-test", f.file, dt[0].lineno, f"{ci.name}._Behavior", f"`{norm_text(dt[0])[:70]}` reads the parameters {sorted(tested)} while the law matrices also read {missing}: a field given for {missing[0]} alone is not detected (the matrices are built with dtype=float from ragged entries)")
+        else:
+            r.ok(f"{ci.name}._Behavior: the dtype test reads every parameter of the matrices ({sorted(used)})")
